@@ -367,16 +367,24 @@ def gen_names_file(rng):
     aranges = b''
     pubn = b''
     pubt = b''
-    code = rng.choice([0x1000, 0x401000])
+    code = rng.choice([0x1000, 0x401000] + ([0xffffffff81000000] if cls == 64 else [0xc0100000]))     # kernel images: the upper half
+    all4 = cls == 64 and (getattr(rng, 'variant', 0) or 0) % 4 == 1     # every unit with 4-byte addresses in a 64-bit file, several sets
+    if all4:
+        n = max(n, 2)
+        code = 0x1000
     shape = []
     # a name-keyed table cannot hold the same name twice (overloads, 'int' in every unit): most files keep names
     # unique over the whole file, some repeat them as real programs do
     repeat = rng.random() < 0.3
     seen_n, seen_t = set(), set()
     all_n, all_t = [], []
+    per_unit = []
     for i in range(n):
         ver = rng.choice([2, 3, 4, 5])
-        cu = dwtab.CU(version=ver, asz=asz, le=le)
+        # a unit may use 4-byte addresses in a 64-bit file: the sets of such a unit have a pointer size of their own
+        uasz = 4 if (asz == 8 and code < 2 ** 31 and (rng.random() < 0.25 or all4)) else asz
+        UA = E + ('Q' if uasz == 8 else 'I')
+        cu = dwtab.CU(version=ver, asz=uasz, le=le)
         cu.root_name = 'unit%d.c' % i
         cu.root_attrs = [(0x13, 0x0b, bytes([rng.choice([1, 4, 12, 0x1d])]), None)]      # DW_AT_language
         types, names = [], []
@@ -398,8 +406,8 @@ def gen_names_file(rng):
             lo = code
             ln = rng.choice([0x10, 0x44, 0x200])
             code += ln + rng.choice([0, 0x10])
-            hp = (0x12, 0x01, struct.pack(A, lo + ln), None) if ver < 4 else (0x12, 0x0f, uleb(ln), None)
-            cu.add(0x2e, [(0x3f, 0x0c, b'\x01', None), (0x11, 0x01, struct.pack(A, lo), None), hp,
+            hp = (0x12, 0x01, struct.pack(UA, lo + ln), None) if ver < 4 else (0x12, 0x0f, uleb(ln), None)
+            cu.add(0x2e, [(0x3f, 0x0c, b'\x01', None), (0x11, 0x01, struct.pack(UA, lo), None), hp,
                           (0x3a, 0x0b, b'\x01', None), (0x3b, 0x0b, bytes([rng.randrange(1, 200)]), None)], label=nm)
             names.append(nm)
             ranges.append((lo, ln))
@@ -409,7 +417,7 @@ def gen_names_file(rng):
                 while nm in seen_n:
                     nm += '%d' % i
                 seen_n.add(nm)
-            expr = bytes([0x03]) + struct.pack(A, 0x600000 + 8 * k)
+            expr = bytes([0x03]) + struct.pack(UA, 0x600000 + 8 * k)
             cu.add(0x34, [(0x3f, 0x0c, b'\x01', None), (0x02, 0x0a if ver < 4 else 0x18,
                                                         (bytes([len(expr)]) if ver < 4 else uleb(len(expr))) + expr, None)], label=nm)
             names.append(nm)
@@ -418,36 +426,52 @@ def gen_names_file(rng):
         info += unit
         abbrevs += ab
         ntyp = len(types)
-        # address ranges: one set per unit, header padded to a multiple of the tuple size
-        body = struct.pack(E + 'HIBB', 2, unit_off, asz, 0)
-        body += b'\0' * (-(len(aranges) + 4 + len(body)) % (2 * asz))
         if i and rng.random() < 0.3:
             ranges = []            # a unit without code (declarations only): an empty set behind a set with entries
-        for lo, ln in ranges:
-            body += struct.pack(A, lo) + struct.pack(A, ln)
-        if rng.random() < 0.2 and ranges:
-            body += struct.pack(A, code + 0x40) + struct.pack(A, 0)        # an empty function: address without length
-        body += struct.pack(A, 0) * 2
-        body += b'\0' * (-(len(body) + 4) % (2 * asz))
+        empty_fn = (code + 0x40) if (rng.random() < 0.2 and ranges) else None
+        per_unit.append(dict(off=unit_off, size=len(unit), asz=uasz, ranges=ranges, empty_fn=empty_fn,
+                             names=list(zip(names, offs[ntyp:])), types=list(zip(types, offs[:ntyp]))))
+        shape.append((ver, ntyp, len(names), uasz))
+        all_n += names
+        all_t += types
+    # the sets need not come in the order of the units (a linker concatenates the contributions as it meets them)
+    order = list(range(n))
+    if rng.random() < 0.35:
+        order.reverse()
+    for ui in order:
+        U = per_unit[ui]
+        uasz = U['asz']
+        UA = E + ('Q' if uasz == 8 else 'I')
+        # address ranges: one set per unit, header padded to a multiple of the tuple size. A set starts at a multiple of
+        # its own tuple size (producers align their contributions): the set before it is lengthened where necessary
+        body = struct.pack(E + 'HIBB', 2, U['off'], uasz, 0)
+        body += b'\0' * (-(len(aranges) + 4 + len(body)) % (2 * uasz))
+        for lo, ln in U['ranges']:
+            body += struct.pack(UA, lo) + struct.pack(UA, ln)
+        if U['empty_fn'] is not None:
+            body += struct.pack(UA, U['empty_fn']) + struct.pack(UA, 0)        # an empty function: address without length
+        nxt = order[order.index(ui) + 1] if order.index(ui) + 1 < len(order) else None
+        if nxt is not None and (len(aranges) + 4 + len(body) + 2 * uasz) % (2 * per_unit[nxt]['asz']):
+            # a set starts at a multiple of its own tuple size (producers align their contributions): one more tuple here
+            # (an address without length) keeps the next, wider set aligned
+            body += struct.pack(UA, 0x7000) + struct.pack(UA, 0)
+        body += struct.pack(UA, 0) * 2
         aranges += struct.pack(E + 'I', len(body)) + body
 
         def table(pairs):
-            b = struct.pack(E + 'HII', 2, unit_off, len(unit))
+            b = struct.pack(E + 'HII', 2, U['off'], U['size'])
             for nm, o in pairs:
                 b += struct.pack(E + 'I', o) + nm.encode() + b'\0'
             b += struct.pack(E + 'I', 0)
+            b += b'\0' * rng.choice([0, 0, 0, 1, 3, 4])          # padding behind the terminator, counted in the length
             return struct.pack(E + 'I', len(b)) + b
-        pubn += table(list(zip(names, offs[ntyp:])))
-        pubt += table(list(zip(types, offs[:ntyp])))
-        shape.append((ver, ntyp, len(names)))
-        all_n += names
-        all_t += types
+        pubn += table(U['names'])
+        pubt += table(U['types'])
     secs = {'.debug_info': info, '.debug_abbrev': abbrevs, '.debug_aranges': aranges, '.debug_pubnames': pubn, '.debug_pubtypes': pubt}
     img = oracles.wrap_debug(secs, le, cls=cls, machine=machine, etype=2)
     return img, dict(cls=cls, le=le, units=shape, dup_pubnames=len(set(all_n)) != len(all_n), dup_pubtypes=len(set(all_t)) != len(all_t))
 
 
-# ---------------------------------------------------------------- location and range lists (DWARF 2-4)
 def gen_loc_file(rng):
     """-> (image, description): units of DWARF 2-4 whose subprograms have a frame base, variables with
     location lists in .debug_loc and lexical blocks with range lists in .debug_ranges; list entries are
